@@ -10,10 +10,10 @@ import (
 	"math"
 	"os"
 	"os/exec"
-	"syscall"
 	"strconv"
 	"strings"
-		"time"
+	"syscall"
+	"time"
 )
 
 type Sort struct {
@@ -39,15 +39,15 @@ func (s Sort) String() string {
 }
 
 type Term struct {
-	Op    string
-	Args  []*Term
-	S     Sort
-	Const bool
-	V     uint64 // bv value (masked), bool 0/1, or float64 bits
-	P1, P2 int   // parameters (extract hi/lo, extend amount)
-	Name  string // for variables
-	id    int
-	ctx   *TermCtx
+	Op     string
+	Args   []*Term
+	S      Sort
+	Const  bool
+	V      uint64 // bv value (masked), bool 0/1, or float64 bits
+	P1, P2 int    // parameters (extract hi/lo, extend amount)
+	Name   string // for variables
+	id     int
+	ctx    *TermCtx
 }
 
 var dbgF *os.File
@@ -87,7 +87,9 @@ func BoolT(b bool) *Term {
 	}
 	return FalseT
 }
-func FPConst(f float64) *Term { return &Term{Op: "const", S: FP64S, Const: true, V: math.Float64bits(f)} }
+func FPConst(f float64) *Term {
+	return &Term{Op: "const", S: FP64S, Const: true, V: math.Float64bits(f)}
+}
 
 func mk(op string, s Sort, p1, p2 int, args ...*Term) *Term {
 	var ctx *TermCtx
@@ -360,7 +362,9 @@ func cmp(op string, a, b *Term, f func(x, y uint64, w int) bool) *Term {
 	return mk(op, BoolS, 0, 0, a, b)
 }
 func Ult(a, b *Term) *Term { return cmp("bvult", a, b, func(x, y uint64, w int) bool { return x < y }) }
-func Ule(a, b *Term) *Term { return cmp("bvule", a, b, func(x, y uint64, w int) bool { return x <= y }) }
+func Ule(a, b *Term) *Term {
+	return cmp("bvule", a, b, func(x, y uint64, w int) bool { return x <= y })
+}
 func Slt(a, b *Term) *Term {
 	return cmp("bvslt", a, b, func(x, y uint64, w int) bool { return sext(x, w) < sext(y, w) })
 }
